@@ -87,9 +87,14 @@ def run_case(c):
                     raise RuntimeError("user callback failed")
             proto = bridge.UdpClientProtocol(bridge.partial(bridge._parse_device_from_datagram, cb))
             from .n_c08 import fields_agree
+            seen = []
             for step in range(rnd.randrange(1, 25)):
                 good = gen(rnd)
                 m = good if rnd.random() < 0.5 else bad_datagram(rnd, good)
+                if seen and rnd.random() < 0.3:
+                    # devices repeat their status broadcast: a byte-identical datagram is a new broadcast each time
+                    m = rnd.choice(seen)
+                seen.append(m)
                 kind, e = classify(m)
                 before = len(log)
                 feed(proto, m)
@@ -128,6 +133,7 @@ def run_case(c):
             want = {p: [] for p in ports}
             s = socket.socket(socket.AF_INET, socket.SOCK_DGRAM)
             sent = 0
+            seen = []
             for _ in range(i["n"]):
                 p = rnd.choice(ports)
                 good = gen(rnd)
@@ -135,6 +141,10 @@ def run_case(c):
                 kind, e = classify(m)
                 if kind == "either":
                     m, (kind, e) = good, classify(good)
+                if seen and rnd.random() < 0.3:
+                    m = rnd.choice(seen)         # the same broadcast again (any port)
+                    kind, e = classify(m)
+                seen.append(m)
                 if kind == "deliver":
                     want[p].append((e[1]["device_id"], e[1]["name"]))
                 s.sendto(m, ("127.0.0.1", p))
